@@ -1,6 +1,7 @@
 (* C11 — TSQL select equals relational semantics; its condition grammar is unambiguous. *)
 From Coq Require Import List NArith ZArith Bool.
 From PyD Require Import Base.Str Model.Tsdb Model.Tsql Proofs.TsqlP.
+From PyD Require Import Proofs.TsqlStarP.
 Import ListNotations.
 
 (* the hash join computes exactly the nested-loop inner join on the cast key
@@ -48,3 +49,14 @@ Theorem C11_where_conjunction : forall c1 c2, cwf c1 -> cwf c2 ->
   Some (Some (CAnd [c1; c2]), [KDot]).
 Proof. exact where_conjunction. Qed.
 Print Assumptions C11_where_conjunction.
+
+(* select * : every non-key column of every relation named is projected, every
+   key name at least once, and a name that is a key wherever it occurs exactly
+   once however the relations are ordered *)
+Theorem C11_star_projection : forall d rels qs, project_all d rels = Some qs ->
+  (forall n r f, In n rels -> find_rel d n = Some r -> In f (r_fields r) ->
+     (tf_key f = false -> In (n, tf_name f) qs) /\ (tf_key f = true -> exists n', In (n', tf_name f) qs)) /\
+  (forall k, (forall n r f, In n rels -> find_rel d n = Some r -> In f (r_fields r) -> tf_name f = k -> tf_key f = true) ->
+     cnt k qs <= 1).
+Proof. exact project_all_spec. Qed.
+Print Assumptions C11_star_projection.
